@@ -2296,11 +2296,15 @@ def it_gen_bindings(r, names, members, no_one_shot=()):
             out[n] = ['member', r.choice(dicts)]                  # the dict itself: dtml-in goes over its keys
         elif k < 0.85 and cands:
             i = r.choice(cands)
-            out[n] = [r.choice(['generator over', 'iterator over', 'copy of']), i]
+            # (a batched loop pulls only its window and the look-ahead from a one-shot iterator - C12's subject; what a later
+            # loop of the same rendering then finds in it is not what this reference describes, so names a batched loop goes
+            # over never get a one-shot value, whichever way the value is made)
+            out[n] = [r.choice(['generator over', 'iterator over', 'copy of']) if n not in no_one_shot else 'copy of', i]
             if members[i][0] in IT_ONE_SHOT:
                 out[n] = ['member', i]
         else:
-            kind = r.choice([kd for kd in IT_KINDS if ty != 'rec' or kd in IT_UNHASHABLE_OK])
+            kind = r.choice([kd for kd in IT_KINDS if (ty != 'rec' or kd in IT_UNHASHABLE_OK) and
+                             not (kd in IT_ONE_SHOT and n in no_one_shot)])
             out[n] = ['new', kind, it_gen_content(r, ty)]
     return out
 
